@@ -178,7 +178,7 @@ def load_cases(path):
                 continue
             if "summary" in o:
                 summary = o["summary"]
-            elif "coq" in o:
+            elif "coq" in o or "violation" in o:
                 cases.append(o)
     return cases, summary
 
@@ -403,6 +403,11 @@ def run_and_judge(prop, tier, seed, workdir, phase, extra_args=None):
     cases, summary = ([], {})
     if os.path.exists(out_path):
         cases, summary = load_cases(out_path)
+    # A driver may report an observation that cannot be written as a case of its judge (the real code did
+    # something the harness has no vocabulary for, e.g. it entered a callback in a state the property
+    # excludes): such a line carries "violation": <reason> and counts as a failure of the property's oracle.
+    harness_viol = [c for c in cases if c.get("violation")]
+    cases = [c for c in cases if not c.get("violation")]
     # dedup by literal
     seen, uniq = set(), []
     for c in cases:
@@ -416,7 +421,23 @@ def run_and_judge(prop, tier, seed, workdir, phase, extra_args=None):
         verdict = judge_cases(prop, uniq, workdir,
                               shard_size=getattr(prop, "SHARD", 400),
                               timeout=getattr(prop, "JUDGE_TIMEOUT", {}).get(tier, 900 if tier == "quick" else 7200))
-    return dict(cases=cases, uniq=uniq, verdict=verdict, summary=summary, driver_rc=rc, driver_out=out)
+    # A Go runtime crash of the driver that the property itself excludes (e.g. "fatal error: concurrent map
+    # writes" for a property that says operations do not race on memory) is a failing history: the run
+    # (driver, seed, tier) is the replay.
+    if rc != 0:
+        for rx, why in getattr(prop, "CRASH_VIOLATION", []):
+            mm = re.search(rx, out)
+            if mm:
+                at = max(0, mm.start() - 200)
+                harness_viol.append({"id": "driver-crash", "violation": why,
+                                     "desc": {"runtime_output": out[at:at + 2500]}, "replay": []})
+                break
+    for c in harness_viol:
+        c.setdefault("coq", "(* harness-level observation: %s *)" % c["violation"])
+        uniq.append(c)
+        verdict["bad_spec"].append(len(uniq) - 1)
+        verdict.setdefault("bad_relaxed", []).append(len(uniq) - 1)
+    return dict(cases=cases + harness_viol, uniq=uniq, verdict=verdict, summary=summary, driver_rc=rc, driver_out=out)
 
 
 def smallest(cases, idxs):
